@@ -620,13 +620,16 @@ def r11_4(prog, rep):
                             iv = strip_casts(nn["i"])
                             if iv.get("k") == "ref":
                                 idxvars.add(iv["n"])
-            # counters: incremented inside the loop
+            # counters: stepped inside the loop
             counters = set()
+            down = {}
             for b in blks:
                 for e in cfg.blocks[b].elems:
                     for l, kind, nn in writes(e["x"]):
-                        if kind == "incdec" and "++" in nn["op"] and lv(l) in idxvars:
+                        if kind == "incdec" and lv(l) in idxvars:
                             counters.add(lv(l))
+                            if "--" in nn["op"]:
+                                down[lv(l)] = nn
             # only the innermost loop that increments the counter
             if not counters or any(h2 != h and h2 in blks and counters & _incs_in(cfg, loops[h2]) for h2 in loops):
                 continue
@@ -635,6 +638,26 @@ def r11_4(prog, rep):
                 n += 1
                 seen += 1
                 key = "%s/task_ht-traversal#%d" % (f.name, seen)
+                if v in down:
+                    # a descending walk covers slot 0 only if the counter is tested BEFORE it is decremented (`i--`, `i-- > 0`) and starts at the size
+                    start_ok = False
+                    for p in cfg.lpreds[h]:
+                        if p in blks:
+                            continue
+                        for e in cfg.blocks[p].elems:
+                            for l, kind, nn in writes(e["x"]):
+                                rhs = nn.get("init") if kind == "decl" else (nn.get("r") if nn.get("k") == "bin" else None)
+                                if lv(l) == v and rhs is not None and lv(strip_casts(cfg.resolve(rhs))) == "ztask_ht":
+                                    start_ok = True
+                    post = down[v]["op"] == "post--" and c is not None and any(m is down[v] or (m.get("k") == "un" and m.get("op") == "post--" and lv(m.get("e")) == v) for m in walk(c))
+                    if start_ok and post:
+                        rep.ok(rid, key, f.loc(cfg.blocks[h].elems[-1].get("line") if cfg.blocks[h].elems else None), "%s runs down from ztask_ht - 1 to 0" % v)
+                    else:
+                        rep.fail(rid, key, f.loc(cfg.blocks[h].elems[-1].get("line") if cfg.blocks[h].elems else None),
+                                 "descending traversal of the task table with counter %s (`%s`)%s: slot 0 (or the top slots) is never visited - the task "
+                                 "stored there vanishes from listings, checkpoints or a resize" % (
+                                     v, show(c) if c is not None else "?", "" if start_ok else " does not start at the table size"))
+                    continue
                 atoms = cond_atoms(c, True) if c is not None else []
                 bound = [a for a in atoms if len(a) == 5 and a[0] == "<" and a[1] == v]
                 init0 = False
